@@ -779,8 +779,6 @@ where
         let h_base = first_statement.generators.h_base();
         let bit_length = first_statement.generators.bit_length();
         let extension_degree = first_statement.generators.extension_degree() as usize;
-        let g_bases_compressed = first_statement.generators.g_bases_compressed();
-        let h_base_compressed = first_statement.generators.h_base_compressed();
         let precomp = max_statement.generators.precomp();
 
         // Compute 2**n-1 for later use
@@ -823,10 +821,11 @@ where
             let mut null_rng = NullRng;
 
             // Start the transcript, using `NullRng` since we don't need or want actual randomness there
+            // Each proof is bound to the compressed generators of its own statement, exactly as when it is verified alone
             let mut transcript = RangeProofTranscript::new(
                 transcript,
-                &h_base_compressed,
-                g_bases_compressed,
+                &statement.generators.h_base_compressed(),
+                statement.generators.g_bases_compressed(),
                 bit_length,
                 extension_degree,
                 statement.commitments.len(),
